@@ -705,10 +705,11 @@ def obligations(tier, seed):
                 for op in sel:
                     out.append({"family": "hist", "layer": "state", "universe": uni, "weighted": weighted,
                                 "ops": base + [op]})
-        from verif.props.C02 import detours, pair_layers
+        from verif.props.C02 import detours, pair_layers, shrink_collisions
 
         out.extend(detours(alpha, uni, weighted, rng, 14 if tier == "quick" else 80))
         out.extend(pair_layers(alpha, uni, weighted, rng, tier == "quick"))
+        out.extend(shrink_collisions(alpha, uni, weighted, rng, tier == "quick"))
         # (iii) seeded longer histories
         n_long = 16 if tier == "quick" else 120
         for _ in range(n_long):
